@@ -45,8 +45,8 @@ use crate::{
     world::World,
 };
 
-// the second name has the first as a string prefix (and as a prefix of whole elements it does not)
-const NAMES: [&str; 2] = ["x.y.N", "x.y.NN"];
+// the second name lies in the first's namespace (arg0namespace='x.y.N' matches both; arg0 does not)
+const NAMES: [&str; 2] = ["x.y.N", "x.y.N.M"];
 const OTHER: &str = ":1.5";
 const FORGER: &str = ":1.9";
 /// Symbols per name: 0..10 place events between operations, 10 and 11 inside a request.
